@@ -111,7 +111,9 @@ def check_writers(chk, prog):
         for fn, kind, span in W.field_write_sites(prog, sd["did"], fi):
             writers.add(fn["name"])
             chk.evaluated(1, nontrivial=(key, fld["name"], fn["pretty"]))
-            if fn["name"] not in allowed or not (fn.get("trait", "").endswith("Settable") or is_adt(fn.get("impl_self") or {}, "SettableData")):
+            def base_ok(f, allowed=allowed):
+                return f["name"] in allowed and (f.get("trait", "").endswith("Settable") or is_adt(f.get("impl_self") or {}, "SettableData"))
+            if not (base_ok(fn) or W.private_helper_of(prog, fn, base_ok)):
                 chk.violation("C15.W", "writer:%s:%s" % (fld["name"], fn["pretty"]), "%s (%s) writes SettableData::%s (%s); only %s may" % (fn["pretty"], loc(span), fld["name"], kind, sorted(allowed)),
                               fn=fn["pretty"], file=loc(span))
                 ok = False
@@ -162,7 +164,9 @@ def check_following(chk, prog, sim):
             else:
                 good = len(sets) == 1 and sets[0][3] == (Sym("v0"),)
                 set_failed = [p for p in leaf.pc if p[0] == "variant" and ".set()" in p[1] and p[2] == "Err"]
-                if set_failed:
+                if isinstance(ret, Sym) and ".set()" in ret.name:
+                    pass   # the outcome of set() is returned as is: propagated by construction
+                elif set_failed:
                     good = good and not rok
                 else:
                     good = good and rok
